@@ -363,6 +363,116 @@ example :
     credentialRole ep (some "O") = some .operator ∧
     credentialRole (run ep [claim]).1 (some "MINTED") = some .engineer := by decide
 
+/-- **A pairing code is single-use.**  A successful `claim` clears the pending code, so every later
+`claim` — any code, any time, any requested role — fails until an administrator starts a new pairing. -/
+theorem c18_claim_single_use (p : Pairing) (now : Nat) (code : String) (req : Option Role) (fresh : String)
+    (h : (p.claim now code req fresh).2 = true)
+    (now' : Nat) (code' : String) (req' : Option Role) (fresh' : String) :
+    (p.claim now code req fresh).1.pending = none ∧
+    ((p.claim now code req fresh).1.claim now' code' req' fresh').2 = false := by
+  have hp : (p.claim now code req fresh).1.pending = none := by
+    unfold Pairing.claim at h ⊢
+    cases hpend : p.pending with
+    | none => simp [hpend] at h
+    | some pe =>
+      obtain ⟨pcode, exp⟩ := pe
+      simp only [hpend] at h ⊢
+      split
+      · rfl
+      · split
+        · rename_i h1 h2; simp [h1, h2] at h
+        · split <;> rfl
+  refine ⟨hp, ?_⟩
+  generalize (p.claim now code req fresh).1 = q at hp
+  unfold Pairing.claim
+  simp [hp]
+
+/-- **A failed claim mints nothing**: the token list afterwards is the old one with expired entries
+dropped — no new entry, whatever went wrong (no pending code, expired code, wrong code, store full). -/
+theorem c18_failed_claim_mints_nothing (p : Pairing) (now : Nat) (code : String) (req : Option Role)
+    (fresh : String) (h : (p.claim now code req fresh).2 = false) :
+    (p.claim now code req fresh).1.tokens = prune now p.tokens := by
+  unfold Pairing.claim at h ⊢
+  cases hpend : p.pending with
+  | none => simp
+  | some pe =>
+    obtain ⟨pcode, exp⟩ := pe
+    simp only [hpend] at h ⊢
+    split
+    · rfl
+    · split
+      · rfl
+      · split
+        · rfl
+        · rename_i h1 h2 h3; simp [h1, h2, h3] at h
+
+/-- **An expired pairing code is refused** (`PAIRING_CODE_TTL_SECS`): a claim after the code's expiry
+fails even with the right code, and clears the code. -/
+theorem c18_expired_code_refused (p : Pairing) (now : Nat) (code : String) (req : Option Role)
+    (fresh pcode : String) (exp : Nat) (hp : p.pending = some (pcode, exp)) (hexp : exp < now) :
+    (p.claim now code req fresh).2 = false ∧ (p.claim now code req fresh).1.pending = none := by
+  unfold Pairing.claim
+  simp [hp, hexp]
+
+/-- **A wrong code is refused and does not consume the pending code.** -/
+theorem c18_wrong_code_refused (p : Pairing) (now : Nat) (code : String) (req : Option Role)
+    (fresh pcode : String) (exp : Nat) (hp : p.pending = some (pcode, exp)) (hlive : ¬ exp < now)
+    (hne : pcode ≠ trimmed code) :
+    (p.claim now code req fresh).2 = false ∧
+    (p.claim now code req fresh).1.pending = some (pcode, exp) := by
+  unfold Pairing.claim
+  simp [hp, hlive, hne]
+
+/-- **An expired token maps to no role** (`PAIRING_TOKEN_TTL_SECS`): if every entry carrying the token
+string has expired, validation finds nothing. -/
+theorem c18_expired_token_no_role (p : Pairing) (now : Nat) (tok : String)
+    (h : ∀ e ∈ p.tokens, e.token = tok → e.expiresAt < now) :
+    (p.validate now tok).2 = none := by
+  unfold Pairing.validate lookupToken prune
+  simp only [Option.map_eq_none_iff, List.find?_eq_none, List.mem_filter, decide_eq_true_eq]
+  rintro e ⟨he, hle⟩
+  simp only [Bool.and_eq_true, decide_eq_true_eq, not_and]
+  intro _ htok
+  have := h e he htok
+  omega
+
+/-- **The store never holds more than `PAIRING_MAX_TOKENS` enabled tokens**: `claim` preserves the
+bound (it is the only operation that adds an entry). -/
+theorem c18_claim_bounded (p : Pairing) (now : Nat) (code : String) (req : Option Role) (fresh : String)
+    (h : enabledCount p.tokens ≤ maxTokens) :
+    enabledCount (p.claim now code req fresh).1.tokens ≤ maxTokens := by
+  have hpr := enabledCount_prune_le now p.tokens
+  by_cases hok : (p.claim now code req fresh).2 = false
+  · rw [c18_failed_claim_mints_nothing p now code req fresh hok]; omega
+  · unfold Pairing.claim at hok ⊢
+    cases hpend : p.pending with
+    | none => simp [hpend] at hok
+    | some pe =>
+      obtain ⟨pcode, exp⟩ := pe
+      simp only [hpend] at hok ⊢
+      split
+      · simp_all
+      · split
+        · simp_all
+        · split
+          · simp_all
+          · rename_i h3
+            simp only [enabledCount] at h3 ⊢
+            simp only [List.filter_append, List.length_append]
+            simp only [ge_iff_le, Nat.not_le] at h3
+            simp [List.filter]
+            omega
+
+/-- Non-vacuity of the pairing-code theorems: a live code is accepted once (surrounding blanks trimmed),
+the same claim repeated is refused, and the same code after its expiry is refused. -/
+example :
+    let p : Pairing := ⟨[], some ("123456", 1300)⟩
+    (p.claim 1000 " 123456 " none "TOK").2 = true ∧
+    ((p.claim 1000 " 123456 " none "TOK").1.claim 1001 "123456" none "TOK2").2 = false ∧
+    (p.claim 1301 "123456" none "TOK").2 = false ∧
+    (p.claim 1000 "654321" none "TOK").1.pending = some ("123456", 1300) := by decide
+
+
 /-! ## Non-vacuity -/
 
 /-- A concrete endpoint: token configured, debugging off, one live engineer pairing token, one expired
